@@ -47,7 +47,7 @@ theorem inv_popCas_ok (c : Cfg) {s : State} (h : Inv c s) (t b h0 nx)
   all_goals (clear hh hc hpc hc1 hl1; subst hhd)
   all_goals (simp only [e1, List.tail_cons]; rw [e1] at hnd; clear e1)
   all_goals (simp only [upd, hasRight] at *)
-  all_goals (first | grind | (trace_state; sorry))
+  all_goals grind
 
 
 /-- a thread leaves a pop attempt (or retries): only its pc / return value change -/
@@ -114,7 +114,7 @@ theorem inv_popAll (c : Cfg) {s s' : State} (h : Inv c s) (t)
       by_cases e : t1 = t <;> by_cases m : a ∈ s.abs <;> simp only [upd, e, m, if_true, if_false] <;> grind
     all_goals (clear hh hc hpc)
     all_goals (simp only [upd, hasRight] at *)
-    all_goals (first | grind | (trace_state; sorry))
+    all_goals grind
   · simp at st
 
 theorem inv_iterNext (c : Cfg) {s s' : State} (h : Inv c s) (t b)
@@ -178,7 +178,7 @@ theorem inv_iterNext (c : Cfg) {s s' : State} (h : Inv c s) (t b)
           frame_tac
       all_goals (clear hc hpc hc1 hl1 hrd)
       all_goals (simp only [upd, hasRight] at *)
-      all_goals (first | grind | (trace_state; sorry))
+      all_goals grind
   · simp at st
 
 
